@@ -94,10 +94,14 @@ type iterSlot struct {
 }
 
 type Object struct {
-	id   int
-	val  Value
-	name string
+	id     int
+	val    Value
+	name   string
+	allocG *Term // guard under which the object was allocated (it does not exist on other paths)
 }
+
+// curGuard is the guard of the instruction being executed (set by execBlock).
+var curGuard *Term
 type MapSlot struct {
 	key  Value
 	val  Value
@@ -123,7 +127,7 @@ type ChanObj struct {
 
 var nObjects int
 
-func newObject(v Value) *Object { nObjects++; return &Object{id: nObjects, val: v} }
+func newObject(v Value) *Object { nObjects++; return &Object{id: nObjects, val: v, allocG: curGuard} }
 
 const IntW = 64
 
